@@ -5,7 +5,7 @@ use std::process::Command;
 
 use serde_json::{json, Value};
 
-use crate::engine::{splitmix, verif_dir, out_dir};
+use crate::engine::{catch, splitmix, verif_dir, out_dir, Failure, Stats};
 
 pub struct FuzzOutcome {
     pub evidence: Value,
@@ -112,4 +112,46 @@ pub fn run(target: &str, seed: u64, runs: u64, max_len: usize, extra_seeds: &[Ve
         "note": "a libFuzzer campaign is pinned only approximately by -seed/-runs; a saved artifact is the reproducible unit and is re-checked by the release harness before it is reported",
     }});
     FuzzOutcome { evidence: ev, artifacts }
+}
+
+/// Thorough-tier campaign of a hand-decoded target plus re-check of its artifacts by this (release) process:
+/// a crash artifact counts only if `check` fails on the decoded case here as well; a timeout artifact only if the
+/// case does not finish within 60 s here either.
+pub fn campaign<C: Clone + Send + 'static>(
+    target: &str,
+    seed: u64,
+    default_runs: u64,
+    max_len: usize,
+    decode: fn(&[u8]) -> C,
+    check: fn(&C, &mut Stats) -> Result<(), Failure>,
+) -> (Value, Option<(C, Failure)>) {
+    let runs: u64 = std::env::var("VERIF_FUZZ_RUNS").ok().and_then(|s| s.parse().ok()).unwrap_or(default_runs);
+    let out = run(target, seed, runs, max_len, &[], None);
+    let mut ev = out.evidence;
+    let mut confirmed = None;
+    let mut unconfirmed = 0;
+    for a in &out.artifacts {
+        let Ok(bytes) = std::fs::read(a) else { continue };
+        let case = decode(&bytes);
+        let c2 = case.clone();
+        let (tx, rx) = std::sync::mpsc::channel();
+        std::thread::spawn(move || {
+            let mut st = Stats::new(0);
+            let r = catch(|| check(&c2, &mut st));
+            let _ = tx.send(r);
+        });
+        match rx.recv_timeout(std::time::Duration::from_secs(60)) {
+            Ok(Ok(Ok(()))) => unconfirmed += 1,
+            Ok(Ok(Err(f))) => confirmed = Some((case, f)),
+            Ok(Err(p)) => confirmed = Some((case, Failure::new(format!("harness-or-library panic: {}", p), "no panic", p))),
+            Err(_) => confirmed = Some((case, Failure::new("hang", "result within 60 s", "no result after 60 s (libFuzzer artifact, reproduced by the release harness)"))),
+        }
+        if confirmed.is_some() {
+            break;
+        }
+    }
+    if let Some(o) = ev.get_mut("fuzz").and_then(|f| f.as_object_mut()) {
+        o.insert("artifacts_not_confirmed_by_release_harness".into(), json!(unconfirmed));
+    }
+    (ev, confirmed)
 }
